@@ -3,7 +3,7 @@
 import json, os, sys
 here = os.path.dirname(os.path.abspath(__file__))
 sys.path.insert(0, here)
-from claims import CLAIMS, NOT_APPLICABLE  # noqa: E402
+from claims import CLAIMS, NOT_APPLICABLE, ADDENDA  # noqa: E402
 
 props = [json.loads(l)['id'] for l in open(os.path.join(here, '..', 'properties.jsonl'))]
 checks = []
@@ -18,7 +18,7 @@ for pid in props:
         'evidence_file': f'evidence/{pid}.json',
         'replay_cmd_template': f'./check {pid} --replay {{path}}',
         'engine': 'sa',
-        'level_claimed': {'category': 'other', 'text': c['text'], 'design_ref': 'DESIGN.md section ' + c['ref']},
+        'level_claimed': {'category': 'other', 'text': c['text'] + ADDENDA.get(pid, ''), 'design_ref': 'DESIGN.md section ' + c['ref']},
         'level_note': c['note'],
         'technique': c['technique'],
     })
@@ -44,7 +44,8 @@ manifest = {
                            'enumeration with exception edges (E1), alias/freshness (E2), axis-label typing (E3), bit-provenance '
                            'dataflow (E4), literal tables vs generated FIPS tables (E5), numba kernel rules (E6), registries (E7), '
                            'validator rules (E8), partial evaluation of configuration code over its finite domain with cipher data opaque (E9), '
-                           'axis-layout interpretation over (rank, axis) configurations (E10). No repository code is imported or executed.'},
+                           'axis-layout interpretation over (rank, axis) configurations (E10), AST inlining / normal forms / guard-clause structuring (E11), trace-count exponents and '
+                           'dimensional analysis (E12), provenance arrays and xor-term evaluation of the key expansion (E13). No repository code is imported or executed.'},
     ],
     'checks': checks,
     'not_applicable': na,
